@@ -51,6 +51,9 @@ pub fn load_incircuit(
                 .flat_map(|value| value.transpose_vec(n))
                 .collect();
             let assigned = std_lib.assign_many(layouter, &concatenated)?;
+            if n == 0 {
+                return Ok(vec![CircuitValue::Bytes(vec![]); values.len()]);
+            }
             Ok(assigned.chunks(n).map(|chunk| CircuitValue::Bytes(chunk.to_vec())).collect())
         }
 
